@@ -920,6 +920,16 @@ class Engine(object):
             n = z3.simplify(b.t)
             if z3.is_int_value(n):
                 return [(P, P.new("list", P.get(a) * n.as_long()))]
+            kind = (self.contracts.get(self.current) or {}).get("none_list_kind")
+            if kind and len(P.get(a)) == 1 and P.get(a)[0] is NONE and b.isint and kind.startswith("ref:"):
+                # [None] * n for a symbolic n: a fresh SMT list of max(0, n) null references (element kind named by the contract)
+                RL = self.new_slist(P, kind, "nones")
+                self.l_set_len(P, RL, z3.If(b.t >= 0, b.t, z3.IntVal(0)))
+                row = self.fresh("row", z3.ArraySort(IntS, RefS))
+                jv = z3.Const("j!nones", IntS)
+                P.assume(z3.ForAll([jv], z3.Select(row, jv) == NULL, patterns=[z3.Select(row, jv)]))
+                self.l_set_elems(P, RL, row)
+                return [(P, RL)]
             raise Unsupported("list * symbolic")
         if isinstance(a, Opaque) or isinstance(b, Opaque):
             return self.models["opaque.binop"](self, P, ctx, op, a, b)
